@@ -27,7 +27,24 @@ def run_jobs(tier, prop, mode, jobs, floor=None, extra=None):
     for label, cfg, feat, nq, nt in jobs:
         exe = build.build_harness("c01", ["c01_prog.c"], cfg)
         before = res.counters.get("programs", 0)
-        common.run_sharded(res, exe, ["--seed", seed, "--mode", mode, "--extra", feat], nt if th else nq, env=common.ASAN_ENV, timeout=3000)
+        flt = None
+        if cfg == "asan":
+            # the per-engine watchdog (120 s) is a wall-clock bound: under ASan the allocation-heavy generator passes of a large function can
+            # exceed it on a loaded machine. A hang seen only by the ASan build is confirmed with the uninstrumented build of the same case
+            # (same seed, mode, features, case number); it is a violation only if that run hangs too, otherwise the case is discarded.
+            fast_exe = build.build_harness("c01", ["c01_prog.c"], "fast")
+
+            def flt(fp, case, fast_exe=fast_exe, feat=feat):
+                if not fp.startswith("engine-hang") or case is None:
+                    return None
+                import subprocess
+                try:
+                    r = subprocess.run([fast_exe, "--seed", str(seed), "--mode", mode, "--extra", str(feat), "--start", str(case), "--count", "1"],
+                                       stdout=subprocess.PIPE, stderr=subprocess.DEVNULL, text=True, errors="replace", timeout=1200)
+                except subprocess.TimeoutExpired:
+                    return None
+                return None if "VIOL engine-hang" in r.stdout else "watchdog-under-asan-only-confirmed-not-hanging-in-plain-build"
+        common.run_sharded(res, exe, ["--seed", seed, "--mode", mode, "--extra", feat], nt if th else nq, env=common.ASAN_ENV, timeout=3000, viol_filter=flt)
         per[label] = {"build": cfg, "generator_feature_mask": feat, "programs": res.counters.get("programs", 0) - before}
     ex = {"sub_runs": per}
     ex.update(extra or {})
